@@ -255,14 +255,34 @@ def impl_write(scn, cid, run):
         writer = validio.Writer(cid, target)
     except Exception as error:  # noqa
         return {"w": "!" + core.classify_exception(error), "text": "", "close": "skipped", "log": drain_log(scn)}
-    for row in run["rows"]:
-        try:
-            writer.write_row(row)
-            verdicts.append("k")
-        except errors.DataError as error:
-            verdicts.append(enc_error(scn, error).split(":", 1)[1])
-        except Exception as error:  # noqa
-            verdicts.append("!" + core.classify_exception(error))
+    if run.get("batch"):
+        # Writer.write_rows(): the same as write_row() for each row, stopping at the first rejection; the batch is
+        # handed over as an iterator so that the number of rows taken before the error is observable
+        rows, pos = run["rows"], 0
+        while pos < len(rows):
+            taken = [0]
+
+            def batch(start=pos, taken=taken):
+                for r in rows[start:]:
+                    taken[0] += 1
+                    yield r
+            try:
+                writer.write_rows(batch())
+                verdicts.extend(["k"] * taken[0])
+            except errors.DataError as error:
+                verdicts.extend(["k"] * (taken[0] - 1) + [enc_error(scn, error).split(":", 1)[1]])
+            except Exception as error:  # noqa
+                verdicts.extend(["k"] * (taken[0] - 1) + ["!" + core.classify_exception(error)])
+            pos += max(taken[0], 1)
+    else:
+        for row in run["rows"]:
+            try:
+                writer.write_row(row)
+                verdicts.append("k")
+            except errors.DataError as error:
+                verdicts.append(enc_error(scn, error).split(":", 1)[1])
+            except Exception as error:  # noqa
+                verdicts.append("!" + core.classify_exception(error))
     close = "skipped"
     if run.get("close", True):
         try:
